@@ -40,4 +40,20 @@ macro "uclose" : tactic =>
                  dec_borrow, inc_carry, neg_carry, xor_alt, *];
        try (first | rfl | (simp only [BitVec.and_comm, Nat.land_comm, BitVec.or_comm, Nat.lor_comm]; done) | (apply withCZN_congr <;> first | rfl | boolarith | bv_omega) | bv_omega | (congr 3 <;> first | rfl | boolarith | bv_omega) | (congr 2 <;> first | rfl | boolarith | bv_omega) | (congr 1 <;> first | rfl | boolarith | bv_omega)))))
 
+/-- Close an `AtEnd` goal after symbolic execution up to the end word. -/
+macro "ucloseEnd" : tactic =>
+  `(tactic| (constructor <;>
+      (first
+        | decide
+        | (simp only [Core.applyPending, Regs.set, setCZN_withCZN, alu_z, alu_n, alu_ADD_out, alu_ADD_c, alu_A_out,
+            alu_A_c, alu_B_out, alu_B_c,
+            alu_NOR_out, alu_NOR_c, alu_SETC_out, alu_SETC_c, alu_BH_out, alu_BH_c, alu_LSR_out, alu_LSR_c,
+            alu_ASR_out, alu_ASR_c, alu_RRC_out, alu_RRC_c, alu_ADC_out, alu_ADC_c, alu_ADDS_out, alu_ADDS_c,
+            alu_ADDH_out, alu_ADDH_c, flagBit_C, flagBit_Z, flagBit_N, add_not_one, nor_self,
+            and_via_nor, or_via_nor, xor_via_nor, andn_via_nor, add_254_1, add_255, neg_via_not,
+            BitVec.not_not, BitVec.or_self];
+           try simp [Isa.flagsOf, Isa.operand, Isa.push, Isa.Arch.wr, Isa.Arch.rd, Isa.Arch.reg, Isa.Arch.setReg, borrow_iff,
+                 dec_borrow, inc_carry, neg_carry, xor_alt, *];
+           try (first | rfl | (simp only [BitVec.and_comm, Nat.land_comm, BitVec.or_comm, Nat.lor_comm]; done) | (apply withCZN_congr <;> first | rfl | boolarith | bv_omega) | bv_omega | (congr 1 <;> first | rfl | boolarith | bv_omega))))))
+
 end Emu2a
